@@ -20,6 +20,13 @@
 // growing, same size, shrinking, to 0 bytes (the code defines it: a tracked 0-byte block comes back) - on blocks of the
 // current test and on blocks left by earlier tests, and realloc(NULL, n) as an allocation form.  Model: the old block is
 // released, the result is a NEW block allocated by the current test.
+// Extension (coverage): every form of operator new / new[] (plain, debug with size_t or int line, nothrow) and of operator
+// delete / delete[] (plain, sized, nothrow, placement with size_t or int line) is used by the scripts - all of them are
+// tracked allocations / releases of the new resp. new[] family.
+// Extension (coverage): a second MemoryLeakWarningPlugin on a LOCAL detector (installed before or after the first one, or
+// absent; never together with the scripted plugin) and script steps that allocate / release through that local detector.
+// EXPECT_N_LEAKS / IGNORE_ALL_LEAKS_IN_TEST only reach the first plugin.  Each leak plugin judges its own detector; the one
+// whose post action runs second finds the test already failed when the first one reported, so a test gets at most one leak failure.
 // Extension (seeded change C07-s4): a second, scripted plugin, installed before or after the leak plugin (decoded) or absent,
 // adds 0..2 failures for decoded tests through result.addFailure in its pre and / or post action (as MockSupportPlugin does
 // in its post action).  Model: a failure recorded for the test before the leak plugin's post action suppresses the leak
@@ -44,15 +51,17 @@ using verif::sfmt;
 namespace {
 
 enum { MAXT = 16, NSLOT = 16, MAXOPS = 8, BULKMAX = 150, BULKTOTAL = 1200, MAXKEPT = 2 * MAXT * 8, MAXBLK = MAXT * 3 * MAXOPS + BULKTOTAL + MAXKEPT, MAXFAIL = 8, MSGLEN = SimpleStringBuffer::SIMPLE_STRING_BUFFER_LEN + 64 };
-enum Kind { K_NEW = 0, K_NEWARR = 1, K_MALLOC = 2, K_RELEASE, K_EXPECT, K_IGNORE, K_CHECK, K_FAIL, K_BULK, K_REALLOC };
+enum Kind { K_NEW = 0, K_NEWARR = 1, K_MALLOC = 2, K_RELEASE, K_EXPECT, K_IGNORE, K_CHECK, K_FAIL, K_BULK, K_REALLOC, K_LALLOC, K_LRELEASE };
+enum { NLSLOT = 4 };
 enum OutMode { OUT_PLAIN = 0, OUT_COLLECTING = 1, OUT_JUNIT = 2 };
 const char* fam_name[3] = {"new", "new[]", "malloc"};
 const char* phase_name[3] = {"setup", "body", "teardown"};
 
-struct Op { int kind, slot, fam, blk, old; size_t size; unsigned k; };
+struct Op { int kind, slot, fam, blk, old, form; size_t size; unsigned k; };
+const char* form_name[] = {"", "@(file,size_t)", "@(file,int)", "@nothrow", "@sized"};
 struct Phase { int n; Op ops[MAXOPS]; };
 struct Script { Phase ph[3]; };
-struct Blk { char* p; unsigned num; size_t size; int fam, owner, phase; bool live; };
+struct Blk { char* p; unsigned num; size_t size; int fam, owner, phase; bool live, local; };
 
 // decoded program + observations (static: nothing is allocated while the overloads are on)
 Script g_script[MAXT]; int g_ntests;
@@ -64,6 +73,11 @@ char g_final[MSGLEN];
 
 MemoryLeakWarningPlugin* g_plugin;
 MemoryLeakDetector* g_det;
+// second leak plugin with its own detector
+struct CountingReporter : MemoryLeakFailure { int n = 0; void fail(char*) CPPUTEST_OVERRIDE { n++; } };
+CountingReporter g_local_reporter;
+MemoryLeakDetector* g_local; MemoryLeakWarningPlugin* g_lplugin;
+char* g_lslot_ptr[NLSLOT]; char g_lfinal[MSGLEN];
 
 void run_phase(int t, int ph) {             // NON-ALLOCATING interpreter = the test's setup / body / teardown
     Phase& P = g_script[t].ph[ph];
@@ -73,8 +87,12 @@ void run_phase(int t, int ph) {             // NON-ALLOCATING interpreter = the 
         case K_NEW: case K_NEWARR: case K_MALLOC: {
             Blk& b = g_blk[o.blk];
             b.num = g_det->getCurrentAllocationNumber();      // the number this allocation is going to get
-            char* p = o.kind == K_NEW ? (char*)::operator new(o.size) : o.kind == K_NEWARR ? (char*)::operator new[](o.size)
-                                      : (char*)cpputest_malloc_location(o.size, "script.c", (size_t)(100 + t));
+            char* p;
+            if (o.kind == K_NEW) p = (char*)(o.form == 1 ? ::operator new(o.size, "script.cpp", (size_t)(400 + t)) : o.form == 2 ? ::operator new(o.size, "script.cpp", 400 + t)
+                                             : o.form == 3 ? ::operator new(o.size, std::nothrow) : ::operator new(o.size));
+            else if (o.kind == K_NEWARR) p = (char*)(o.form == 1 ? ::operator new[](o.size, "script.cpp", (size_t)(500 + t)) : o.form == 2 ? ::operator new[](o.size, "script.cpp", 500 + t)
+                                                     : o.form == 3 ? ::operator new[](o.size, std::nothrow) : ::operator new[](o.size));
+            else p = (char*)cpputest_malloc_location(o.size, "script.c", (size_t)(100 + t));
             memset(p, 0x41 + (o.blk % 26), o.size);
             b.p = p; g_slot_ptr[o.slot] = p;
             break; }
@@ -88,6 +106,14 @@ void run_phase(int t, int ph) {             // NON-ALLOCATING interpreter = the 
                 b.p = p;
             }
             break;
+        case K_LALLOC: {                                 // straight through the local detector (the second leak plugin's)
+            Blk& b = g_blk[o.blk];
+            b.num = g_local->getCurrentAllocationNumber();
+            char* p = g_local->allocMemory(defaultNewAllocator(), o.size, "local.cpp", (size_t)(800 + t));
+            memset(p, 0x4c, o.size);
+            b.p = p; g_lslot_ptr[o.slot] = p;
+            break; }
+        case K_LRELEASE: g_local->deallocMemory(defaultNewAllocator(), g_lslot_ptr[o.slot], "local.cpp", (size_t)(900 + t)); g_lslot_ptr[o.slot] = NULLPTR; break;
         case K_REALLOC: {                                // old < 0: realloc(NULL, n)
             Blk& b = g_blk[o.blk];
             b.num = g_det->getCurrentAllocationNumber();
@@ -97,7 +123,13 @@ void run_phase(int t, int ph) {             // NON-ALLOCATING interpreter = the 
             break; }
         case K_RELEASE: {
             char* p = g_slot_ptr[o.slot]; g_slot_ptr[o.slot] = NULLPTR;
-            if (o.fam == K_NEW) ::operator delete(p); else if (o.fam == K_NEWARR) ::operator delete[](p); else cpputest_free_location(p, "script.c", (size_t)(200 + t));
+            if (o.fam == K_NEW) {
+                if (o.form == 1) ::operator delete(p, "script.cpp", (size_t)(600 + t)); else if (o.form == 2) ::operator delete(p, "script.cpp", 600 + t);
+                else if (o.form == 3) ::operator delete(p, std::nothrow); else if (o.form == 4) ::operator delete(p, o.size); else ::operator delete(p);
+            } else if (o.fam == K_NEWARR) {
+                if (o.form == 1) ::operator delete[](p, "script.cpp", (size_t)(700 + t)); else if (o.form == 2) ::operator delete[](p, "script.cpp", 700 + t);
+                else if (o.form == 3) ::operator delete[](p, std::nothrow); else if (o.form == 4) ::operator delete[](p, o.size); else ::operator delete[](p);
+            } else cpputest_free_location(p, "script.c", (size_t)(200 + t));
             break; }
         case K_EXPECT: EXPECT_N_LEAKS(o.k); break;
         case K_IGNORE: IGNORE_ALL_LEAKS_IN_TEST(); break;
@@ -189,6 +221,8 @@ struct TestModel {
     int xpre = 0, xpost = 0;       // failures the scripted plugin adds for this test
     bool failed_before = false;
     std::vector<int> leaks;          // blocks allocated during this test and still outstanding at its end
+    std::vector<int> lleaks;         // the same for the local detector of the second leak plugin
+    bool leak_by_local = false;      // which plugin reports
     bool leak_failure = false;
     bool cross_release = false, edge_leak = false, expect_nonzero = false;
     int bulk = 0, reallocs = 0; bool realloc_earlier_not_larger = false;
@@ -240,12 +274,15 @@ int compare_report(const char* what, const std::string& text, const std::vector<
 
 int run_case(Reader& r, bool& nontrivial, std::string& desc) {
     // ---- decode + model ----
-    memset(g_script, 0, sizeof g_script); g_nblk = 0;
+    memset(g_script, 0, sizeof g_script); memset(g_blk, 0, sizeof g_blk); g_nblk = 0;
     g_ntests = 1 + (int)r.below(MAXT);
     int outmode = (int)r.below(3);
     bool keep_beyond_final = outmode == OUT_COLLECTING && r.flag();
-    int bulk_total = 0;
+    int bulk_total = 0; bool any_form = false, both_conditions = false;
     int xmode = (int)r.below(3);
+    int lmode = xmode ? 0 : (int)r.below(3);        // 0 none, 1 local leak plugin installed before the first leak plugin (its post action runs first), 2 after
+    if (lmode) desc += lmode == 1 ? "[local leak plugin installed before] " : "[local leak plugin installed after] ";
+    int lslot_blk[NLSLOT]; for (int i = 0; i < NLSLOT; i++) lslot_blk[i] = -1;
     if (xmode) desc += xmode == X_BEFORE_LEAK_PLUGIN ? "[2nd plugin installed before the leak plugin] " : "[2nd plugin installed after the leak plugin] ";
     memset(g_xpre, 0, sizeof g_xpre); memset(g_xpost, 0, sizeof g_xpost);
     desc += outmode == OUT_PLAIN ? "" : outmode == OUT_JUNIT ? "[junit output] " : keep_beyond_final ? "[collecting output, kept beyond the final report] " : "[collecting output] ";
@@ -271,9 +308,22 @@ int run_case(Reader& r, bool& nontrivial, std::string& desc) {
             if (n) desc += sfmt("%s:", phase_name[ph]);
             for (int i = 0; i < n && !stopped; i++) {
                 Op& o = P.ops[P.n]; memset(&o, 0, sizeof o);
-                uint32_t kind = r.below(12);       // 0-3 alloc, 4-6 release, 7 expect/ignore, 8 check, 9 own failure, 10 leak k blocks, 11 realloc
+                uint32_t kind = r.below(13);       // 0-3 alloc, 4-6 release, 7 expect/ignore, 8 check, 9 own failure, 10 leak k blocks, 11 realloc, 12 local detector
                 int slot = r.chance(1, 2) ? (int)r.below(4) : (int)r.below(NSLOT);
                 o.slot = slot;
+                if (kind == 12 && !lmode) kind = 8;
+                if (kind == 12) {
+                    int ls = slot % NLSLOT; o.slot = ls;
+                    if (lslot_blk[ls] < 0) {
+                        o.kind = K_LALLOC; o.size = r.below(25); o.blk = g_nblk;
+                        Blk& b = g_blk[g_nblk++]; b.size = o.size; b.fam = K_NEW; b.owner = t; b.phase = ph; b.live = true; b.local = true;
+                        lslot_blk[ls] = o.blk; desc += sfmt("L%d=local(%zu) ", ls, o.size);
+                    } else {
+                        Blk& b = g_blk[lslot_blk[ls]]; o.kind = K_LRELEASE; o.blk = lslot_blk[ls]; b.live = false; lslot_blk[ls] = -1;
+                        desc += b.owner != t ? sfmt("release(L%d of t%02d) ", ls, b.owner) : sfmt("release(L%d) ", ls);
+                    }
+                    P.n++; continue;
+                }
                 if (kind == 11 && slot_blk[slot] >= 0 && g_blk[slot_blk[slot]].fam != K_MALLOC) kind = 4;   // realloc is for the malloc family: release instead
                 if (kind == 11) {
                     o.kind = K_REALLOC; o.fam = K_MALLOC; o.old = slot_blk[slot]; o.blk = g_nblk;
@@ -309,18 +359,21 @@ int run_case(Reader& r, bool& nontrivial, std::string& desc) {
                     else if (!want_alloc && slot_blk[slot] < 0) want_alloc = true;   // empty: allocate instead
                     if (want_alloc) {
                         o.kind = (int)r.below(3); o.fam = o.kind; o.size = r.below(25); o.blk = g_nblk;
+                        o.form = o.fam == K_MALLOC ? 0 : (int)r.below(4);
                         Blk& b = g_blk[g_nblk++]; b.p = NULLPTR; b.num = 0; b.size = o.size; b.fam = o.fam; b.owner = t; b.phase = ph; b.live = true;
                         slot_blk[slot] = o.blk;
-                        desc += sfmt("s%d=%s(%zu) ", slot, fam_name[o.fam], o.size);
+                        desc += sfmt("s%d=%s%s(%zu) ", slot, fam_name[o.fam], form_name[o.form], o.size);
+                        if (o.form) any_form = true;
                     } else {
                         Blk& b = g_blk[slot_blk[slot]];
                         o.kind = K_RELEASE; o.fam = b.fam; o.blk = slot_blk[slot]; b.live = false; slot_blk[slot] = -1;
-                        if (b.owner != t) { M.cross_release = true; desc += sfmt("release(s%d of t%02d) ", slot, b.owner); }
-                        else desc += sfmt("release(s%d) ", slot);
+                        o.form = b.fam == K_MALLOC ? 0 : (int)r.below(5); o.size = b.size; if (o.form) any_form = true;
+                        if (b.owner != t) { M.cross_release = true; desc += sfmt("release%s(s%d of t%02d) ", form_name[o.form], slot, b.owner); }
+                        else desc += sfmt("release%s(s%d) ", form_name[o.form], slot);
                     }
                 } else if (kind == 7) {
                     if (r.chance(2, 3)) {
-                        unsigned own_live = 0; for (int b = 0; b < g_nblk; b++) if (g_blk[b].owner == t && g_blk[b].live) own_live++;
+                        unsigned own_live = 0; for (int b = 0; b < g_nblk; b++) if (g_blk[b].owner == t && g_blk[b].live && !g_blk[b].local) own_live++;
                         o.kind = K_EXPECT; o.k = r.chance(1, 2) ? r.below(4) : own_live; M.expected = o.k; if (o.k) M.expect_nonzero = true; desc += sfmt("EXPECT_N_LEAKS(%u) ", o.k);
                     }
                     else { o.kind = K_IGNORE; M.ignored = true; desc += "IGNORE_ALL_LEAKS "; }
@@ -333,14 +386,23 @@ int run_case(Reader& r, bool& nontrivial, std::string& desc) {
                 P.n++;
             }
         }
-        for (int b = 0; b < g_nblk; b++) if (g_blk[b].owner == t && g_blk[b].live) { M.leaks.push_back(b); if (g_blk[b].phase != 1) M.edge_leak = true; }
+        for (int b = 0; b < g_nblk; b++) if (g_blk[b].owner == t && g_blk[b].live) { if (g_blk[b].local) { M.lleaks.push_back(b); continue; } M.leaks.push_back(b); if (g_blk[b].phase != 1) M.edge_leak = true; }
         // failed before the leak plugin judges it?  own checks; the other plugin's pre action; its post action iff that runs first
         M.failed_before = M.own_failures > 0 || M.xpre > 0 || (xmode == X_BEFORE_LEAK_PLUGIN && M.xpost > 0);
-        M.leak_failure = !M.failed_before && !M.ignored && M.leaks.size() != M.expected;
+        {
+            bool gcond = !M.ignored && M.leaks.size() != M.expected;       // the first plugin (global detector, the one the macros talk to)
+            bool lcond = lmode && !M.lleaks.empty();                       // the local one: expects 0, cannot be told to ignore
+            bool local_first = lmode == 1;
+            M.leak_failure = !M.failed_before && (gcond || lcond);
+            M.leak_by_local = M.leak_failure && (local_first ? lcond : !gcond);   // whoever judges first reports; the other one finds the test already failed
+            if (!M.failed_before && gcond && lcond) both_conditions = true;
+        }
         desc += sfmt("}=>%s ", M.leak_failure ? sfmt("LEAKFAIL(%zu)", M.leaks.size()).c_str() : (M.own_failures ? "ownfail" : (M.xpre || M.xpost) ? "pluginfail" : "pass"));
     }
     std::vector<int> final_blocks;
-    for (int b = 0; b < g_nblk; b++) if (g_blk[b].live) final_blocks.push_back(b);
+    std::vector<int> lfinal_blocks;
+    for (int b = 0; b < g_nblk; b++) if (g_blk[b].live) (g_blk[b].local ? lfinal_blocks : final_blocks).push_back(b);
+    if (both_conditions) nontrivial = true;
     bool any_cross = false, any_edge = false, any_expect = false; int leakfails = 0, ownfails = 0, xfails = 0;
     for (auto& M : model) { any_cross |= M.cross_release; any_edge |= M.edge_leak; any_expect |= M.expect_nonzero; leakfails += M.leak_failure; ownfails += M.own_failures; xfails += M.xpre + M.xpost; }
     for (auto& M : model) if ((M.xpre || M.xpost) && !M.own_failures && !M.ignored && M.leaks.size() != M.expected) nontrivial = true;   // plugin failure meets an unexpected leak
@@ -351,6 +413,11 @@ int run_case(Reader& r, bool& nontrivial, std::string& desc) {
     // ---- reset the process-wide state the case touches ----
     g_plugin->~MemoryLeakWarningPlugin();                                   // same address: getFirstPlugin() keeps pointing at it
     new (g_plugin) MemoryLeakWarningPlugin("VerifLeakPlugin");               // flags cleared whatever the previous case left behind
+    g_lplugin->~MemoryLeakWarningPlugin();
+    new (g_lplugin) MemoryLeakWarningPlugin("VerifLocalLeakPlugin", g_local);
+    for (int i = 0; i < NLSLOT; i++) g_lslot_ptr[i] = NULLPTR;
+    g_lfinal[0] = 0; g_local_reporter.n = 0;
+    size_t lresidue_before = g_local->totalMemoryLeaks(mem_leak_period_all);
     memset(g_nfail, 0, sizeof g_nfail); g_unattributed = 0; g_final[0] = 0;
     for (int i = 0; i < NSLOT; i++) g_slot_ptr[i] = NULLPTR;
     size_t residue_before = g_det->totalMemoryLeaks(mem_leak_period_all);
@@ -362,9 +429,11 @@ int run_case(Reader& r, bool& nontrivial, std::string& desc) {
     RecResult result(output);
     TestRegistry registry;
     for (int t = g_ntests - 1; t >= 0; t--) registry.addTest(g_shell[t]);
+    if (lmode == 1) registry.installPlugin(g_lplugin);
     if (xmode == X_BEFORE_LEAK_PLUGIN) registry.installPlugin(g_xplugin);     // installed first = its post action runs first
     registry.installPlugin(g_plugin);
     if (xmode == X_AFTER_LEAK_PLUGIN) registry.installPlugin(g_xplugin);
+    if (lmode == 2) registry.installPlugin(g_lplugin);
     size_t total_failures;
 
     // ---- ON window ----
@@ -377,11 +446,18 @@ int run_case(Reader& r, bool& nontrivial, std::string& desc) {
         size_t len = strlen(fr); if (len > MSGLEN - 1) len = MSGLEN - 1;
         memcpy(g_final, fr, len); g_final[len] = 0;
     }
+    if (lmode) {
+        if (total_failures != 0) { g_local->startChecking(); g_local->stopChecking(); }
+        const char* fr = g_lplugin->FinalReport(0);
+        size_t len = strlen(fr); if (len > MSGLEN - 1) len = MSGLEN - 1;
+        memcpy(g_lfinal, fr, len); g_lfinal[len] = 0;
+    }
     int kept_at_final = g_nkept;                      // what the collecting output still holds is outstanding, hence in the final report
     static Kept kept_copy[MAXKEPT]; memcpy(kept_copy, g_kept, sizeof(Kept) * (size_t)(kept_at_final > 0 ? kept_at_final : 0));
     CollectingOutput::releaseAll();
     for (int b = 0; b < g_nblk; b++) {                // give everything back so the next case starts from nothing
         if (!g_blk[b].live) continue;
+        if (g_blk[b].local) { g_local->deallocMemory(defaultNewAllocator(), g_blk[b].p, "cleanup.cpp", 2); continue; }
         char* p = g_blk[b].p; int fam = g_blk[b].fam;
         if (fam == K_NEW) ::operator delete(p); else if (fam == K_NEWARR) ::operator delete[](p); else cpputest_free_location(p, "cleanup.c", 1);
     }
@@ -389,6 +465,9 @@ int run_case(Reader& r, bool& nontrivial, std::string& desc) {
     // ---- window closed ----
     registry.resetPlugins();
     size_t residue_after = g_det->totalMemoryLeaks(mem_leak_period_all);
+    size_t lresidue_after = g_local->totalMemoryLeaks(mem_leak_period_all);
+    verif::cls(lmode == 0 ? "leak-plugins:one" : lmode == 1 ? "leak-plugins:local-one-installed-before" : "leak-plugins:local-one-installed-after");
+    if (both_conditions) verif::cls("program:test-leaks-in-both-detectors(one-leak-failure-only)");
     for (int i = 0; i < kept_at_final; i++) {         // model: outstanding at the final report, owned by no test
         Blk& b = g_blk[g_nblk]; b.p = (char*)kept_copy[i].p; b.num = kept_copy[i].num; b.size = kept_copy[i].size; b.fam = K_NEW; b.owner = -1; b.phase = 1; b.live = false;
         final_blocks.push_back(g_nblk++);
@@ -398,6 +477,7 @@ int run_case(Reader& r, bool& nontrivial, std::string& desc) {
     verif::cls(xmode == X_NONE ? "plugins:leak-plugin-only" : xmode == X_BEFORE_LEAK_PLUGIN ? "plugins:second-plugin-installed-before" : "plugins:second-plugin-installed-after");
     verif::cls(outmode == OUT_PLAIN ? "output:plain(non-allocating)" : outmode == OUT_JUNIT ? "output:junit" : keep_beyond_final ? "output:collecting-kept-beyond-final-report" : "output:collecting");
     if (bulk_tests) verif::cls("program:has-bulk-leak-step");
+    if (any_form) verif::cls("program:uses-debug/nothrow/sized/placement-forms-of-new-or-delete");
     if (outmode != OUT_PLAIN && printed_leak_failures_before_last) {
         verif::cls("program:allocating-output-printed-a-leak-failure-before-a-later-test");
         for (int t = 0; t + 1 < g_ntests; t++) if (model[(size_t)t].leak_failure && model[(size_t)t].leaks.size() >= 73) { verif::cls("program:>=73-leaks-reported-through-allocating-output-then-later-test"); break; }
@@ -453,10 +533,13 @@ int run_case(Reader& r, bool& nontrivial, std::string& desc) {
         else V_CHECK(leak_seen == 0, M.failed_before ? "C07:leak-failure-added-to-failed-test" : (M.ignored ? "C07:leak-failure-despite-ignore" : "C07:leak-failure-for-clean-test"),
                      "%s: got a leak failure: %s", ctx.c_str(), verif::printable(leak_text.substr(0, 500)).c_str());
         V_CHECK(leak_seen <= 1, "C07:more-than-one-leak-failure", "%s: %d leak failures", ctx.c_str(), leak_seen);
-        if (M.leak_failure) { if (int rc = compare_report(ctx.c_str(), leak_text, M.leaks, "C07:leak-report")) return rc; }
+        if (M.leak_failure) { if (int rc = compare_report(ctx.c_str(), leak_text, M.leak_by_local ? M.lleaks : M.leaks, M.leak_by_local ? "C07:local-leak-report" : "C07:leak-report")) return rc; }
+        if (M.leak_failure) verif::cls(M.leak_by_local ? "test:leak-failure-from-the-local-leak-plugin" : "test:leak-failure-from-the-first-leak-plugin");
     }
     V_CHECK(total_failures == (size_t)(leakfails + ownfails + xfails), "C07:failure-count", "the run counts %zu failures, the model %d own + %d plugin + %d leak failures", total_failures, ownfails, xfails, leakfails);
     if (int rc = compare_report("final report", final_blocks.empty() && g_final[0] == 0 ? std::string("No memory leaks were detected.") : std::string(g_final), final_blocks, "C07:final-report")) return rc;
+    if (lmode) { if (int rc = compare_report("final report of the local leak plugin", lfinal_blocks.empty() && g_lfinal[0] == 0 ? std::string("No memory leaks were detected.") : std::string(g_lfinal), lfinal_blocks, "C07:local-final-report")) return rc; }
+    V_CHECK(g_local_reporter.n == 0 && lresidue_after == lresidue_before, "C07:residue-in-local-detector", "local detector: %d misuse callbacks, %zu blocks tracked after the cleanup (%zu before the case)", g_local_reporter.n, lresidue_after, lresidue_before);
     V_CHECK(residue_after == residue_before, "C07:residue-in-global-detector",
             "the global detector tracks %zu blocks after everything the program allocated was released (%zu before the case)", residue_after, residue_before);
     return 0;
@@ -472,6 +555,9 @@ extern "C" void verif_init(void) {
     g_plugin = (MemoryLeakWarningPlugin*)::operator new(sizeof(MemoryLeakWarningPlugin));
     new (g_plugin) MemoryLeakWarningPlugin("VerifLeakPlugin");     // the first plugin ever constructed: what EXPECT_N_LEAKS / IGNORE_ALL_LEAKS_IN_TEST talk to
     g_det = MemoryLeakWarningPlugin::getGlobalDetector();
+    g_local = new MemoryLeakDetector(&g_local_reporter);
+    g_lplugin = (MemoryLeakWarningPlugin*)::operator new(sizeof(MemoryLeakWarningPlugin));
+    new (g_lplugin) MemoryLeakWarningPlugin("VerifLocalLeakPlugin", g_local);       // constructed after the first one: getFirstPlugin() is not this one
     g_xplugin = new ScriptPlugin();
 }
 extern "C" int verif_case(const uint8_t* data, size_t size) {
